@@ -135,19 +135,16 @@ def run(chk):
                     aL = Steps("as_list")
                     cnt = {"i": 0}
 
-                    def fresh(phase):
-                        cnt["i"] += 1
-                        return {"res": T.var(f"res_{phase}{cnt['i']}")}
-
+                    NSKEY = ("eko.kernels.non_singlet_qed", "exact", "iter:ev_op_iterations")     # the loop over the evolution steps, wherever it stands and whatever its locals are called
                     state = {}
 
                     def fresh2(phase):
-                        d = fresh(phase)
-                        state["res"] = d["res"]
-                        return d
+                        cnt["i"] += 1
+                        state["res"] = T.var(f"res_{phase}{cnt['i']}")
+                        return {hook.ACTIVE_CUTS[NSKEY].accumulator(): state["res"]}
 
                     def entry(env, it):
-                        chk.eq(f"{tag}.loop_entry", env["res"], 1, fn=fnn, goal="res == 1 before the first step", replay=rp)
+                        chk.eq(f"{tag}.loop_entry", env[hook.ACTIVE_CUTS[NSKEY].accumulator()], 1, fn=fnn, goal="the accumulated kernel is 1 before the first step", replay=rp)
 
                     used = []
                     real_step = nsq.fixed_alphaem_exact
@@ -170,21 +167,21 @@ def run(chk):
                         chk.ground(f"{tag}.loop_step_on_consecutive_couplings", ok, fn=fnn, replay=rp, goal="one step kernel per iteration, from as_list[i] to as_list[i+1], with the a_em of that step",
                                    detail=f"step kernels called with {[(str(x[0]), str(x[1])) for x in used]}")
                         want = state["res"] * ns.dispatcher((n, 0), EvoMethods.ITERATE_EXACT, g[:n].copy(), a1u, a0u, 4)
-                        chk.eq(f"{tag}.loop_preserved", env["res"], want, fn=fnn, replay=rp, goal="arbitrary step: res' == res * K_QCD(a_(i+1), a_i) for the couplings of the step")
+                        chk.eq(f"{tag}.loop_preserved", env[hook.ACTIVE_CUTS[NSKEY].accumulator()], want, fn=fnn, replay=rp, goal="arbitrary step: res' == res * K_QCD(a_(i+1), a_i) for the couplings of the step")
                         used.clear()
 
                     tag0 = tag
                     for running in (True, False):       # alpha_em running along the path / frozen: both configurations reach the dispatcher
                         tag = tag0 if running else tag0 + "[alphaem frozen]"
                         hook.ACTIVE_CUTS.clear()
-                        hook.ACTIVE_CUTS[("eko.kernels.non_singlet_qed", "exact", 0)] = LoopSpec(fresh2, lambda: step, entry, preserved)
+                        hook.ACTIVE_CUTS[NSKEY] = LoopSpec(fresh2, lambda: step, entry, preserved)
                         used.clear()
                         nsq.fixed_alphaem_exact = recording_step
                         try:
                             ret = nsq.dispatcher((n, m), EvoMethods.ITERATE_EXACT, GG.copy(), aL, Zero(), running, 4, N, muf, mut)
                         finally:
                             nsq.fixed_alphaem_exact = real_step
-                        if hook.ACTIVE_CUTS[("eko.kernels.non_singlet_qed", "exact", 0)].entered > 0:
+                        if hook.ACTIVE_CUTS[NSKEY].entered > 0:
                             chk.ground(f"{tag}.all_steps_covered", True, fn=fnn, goal="the step loop is the one under contract (invariant above), or the result is the QCD kernel between the end points", replay=rp)
                         else:      # no loop: by exact composition (C10) the product of the QCD step kernels is the QCD kernel between the end points
                             for nm in ("loop_entry", "loop_preserved"):
@@ -290,20 +287,21 @@ def run(chk):
                         cnt["i"] += 1
                         e = embed4(symmat(f"P{phase}{cnt['i']}_", 2), Q(1), T.var(f"pplus{phase}{cnt['i']}")) if dim == 4 else np.array([[T.var(f"pv{phase}{cnt['i']}"), Q(0)], [Q(0), T.var(f"pm{phase}{cnt['i']}")]], dtype=object)
                         st["e"] = e.copy()
-                        return {"e": e}
+                        return {hook.ACTIVE_CUTS[QKEY].accumulator(): e}
 
                     def entry(env, it):
-                        chk.eq_array(f"{tag}.loop_entry", env["e"], vnp.eye(dim), fn=fnm, goal="e == identity before the first step", replay=rp)
+                        chk.eq_array(f"{tag}.loop_entry", env[hook.ACTIVE_CUTS[QKEY].accumulator()], vnp.eye(dim), fn=fnm, goal="the accumulated kernel is the identity before the first step", replay=rp)
 
                     def preserved(env):
                         if "X" not in st:
                             chk.fail(f"{tag}.loop_preserved", "the step does not exponentiate a matrix of the required block structure", fn=fnm, replay=rp)
                             return
-                        chk.eq_array(f"{tag}.loop_preserved", env["e"], st["X"] @ st["e"], fn=fnm, replay=rp,
+                        chk.eq_array(f"{tag}.loop_preserved", env[hook.ACTIVE_CUTS[QKEY].accumulator()], st["X"] @ st["e"], fn=fnm, replay=rp,
                                      goal="arbitrary step: e' == embed(X_S P, 1, x_+ p_+) -- block structure preserved, each block multiplied by the MatExp of its QCD exponent (later steps to the left)")
 
                     hook.ACTIVE_CUTS.clear()
-                    hook.ACTIVE_CUTS[("eko.kernels.singlet_qed", "eko_iterate", 1)] = LoopSpec(fresh, lambda: step, entry, preserved)
+                    QKEY = ("eko.kernels.singlet_qed", "eko_iterate", "iter:ev_op_iterations")      # the loop over the evolution steps, wherever it stands and whatever its locals are called
+                    hook.ACTIVE_CUTS[QKEY] = LoopSpec(fresh, lambda: step, entry, preserved)
                     saved_em = ad.exp_matrix
                     ad.exp_matrix = matexp_stub
                     try:
@@ -315,7 +313,7 @@ def run(chk):
                                      goal="kernel has the block structure: photon / Sigma_Delta (V / V_Delta) do not mix with anything")
                         if dim == 4:
                             chk.eq(f"{tag}.result.photon", K[1, 1], 1, fn=fnm, goal="the photon evolves trivially", replay=rp)
-                        chk.ground(f"{tag}.loop_reached", hook.ACTIVE_CUTS[("eko.kernels.singlet_qed", "eko_iterate", 1)].entered > 0 and st["calls"] > 0, fn=fnm, goal="the step loop is the one under contract", replay=rp)
+                        chk.ground(f"{tag}.loop_reached", hook.ACTIVE_CUTS[QKEY].entered > 0 and st["calls"] > 0, fn=fnm, goal="the step loop is the one under contract", replay=rp)
                     finally:
                         ad.exp_matrix = saved_em
                         hook.ACTIVE_CUTS.clear()
@@ -347,4 +345,32 @@ def run(chk):
                     chk.configs += 1
     finally:
         beta.beta_qcd = saved_beta
+    # ---- the matrix exponential on the exponents it is handed at a_em = 0 -------------------------------------------------------------------------
+    # Above, exp_matrix stands under its contract (C23).  The exponents of the statement are special matrices: the valence one is diag(l_V, l_-), a MULTIPLE
+    # OF THE IDENTITY below NNLO (gamma_V == gamma_ns-), the singlet one has an isolated photon entry 0.  The real exp_matrix must give the QCD exponentials
+    # exactly there, on every path it takes (LAPACK's eig under its contract for a diagonal matrix: the entries and unit vectors).
+    fne = "ekore.anomalous_dimensions:exp_matrix"
+    chk.under_contract(fne)
+    l, lv, lm = T.var("l"), T.var("l_V"), T.var("l_minus")
+    for cname, diag in (("valence_below_NNLO_multiple_of_identity", [l, l]), ("valence_NNLO_distinct", [lv, lm]), ("no_evolution_zero", [Q(0), Q(0)]),
+                        ("photon_and_plus_decoupled", [lv, Q(0), lm, l])):
+        dim = len(diag)
+        M = np.empty((dim, dim), dtype=object)
+        M[:] = Q(0)
+        for i, d_ in enumerate(diag):
+            M[i, i] = d_
+        saved_hooks = dict(vnp._HOOKS)
+        vnp._HOOKS["linalg.eig"] = lambda mat, diag=diag, dim=dim: (np.array(diag, dtype=object), vnp.eye(dim))
+        tage = f"C14.step_exponential[{cname}]"
+        try:
+            paths = chk.run_paths(tage, lambda: ad.exp_matrix(M), [], fn=fne, replay=rp, goal="no exception on the exponent of a step at a_em = 0")
+        finally:
+            vnp._HOOKS.clear()
+            vnp._HOOKS.update(saved_hooks)
+        want = np.empty((dim, dim), dtype=object)
+        want[:] = Q(0)
+        for i, d_ in enumerate(diag):
+            want[i, i] = Q(1) if (isinstance(d_, Q) and d_ == 0) else T.app("exp", T.lift(d_))
+        for ptag, _pc, res in paths:
+            chk.eq_array(f"{ptag}.is_the_QCD_exponential", np.array(res[0], dtype=object), want, fn=fne, replay=rp, goal="exp(diag(l_i)) == diag(exp(l_i)): each decoupled sector evolves with its own QCD exponential")
     chk.extra["exhaustive"] = True
